@@ -23,13 +23,27 @@ def gen_world_case(rng, cid, profile):
     kinds = list(wts.keys())
     ops = []
     keys = KEYS[: profile.get("nkeys", len(KEYS))]
+    used = {i: [] for i in range(nn)}       # keys each node has written (re-use them: overwrite, delete, re-create)
+    deleted = {i: [] for i in range(nn)}
     for _ in range(nops):
         kind = rng.choices(kinds, [wts[k] for k in kinds])[0]
         n = rng.randrange(nn)
         if kind == "upsert":
-            ops.append({"op": "upsert", "n": n, "k": H(rng.choice(keys)), "v": H(rng.choice(VALS))})
+            r = rng.random()
+            if deleted[n] and r < 0.3:
+                k = rng.choice(deleted[n])          # re-create a deleted key
+                v = rng.choice(["", "", "v", rng.choice(VALS)])
+            elif used[n] and r < 0.6:
+                k = rng.choice(used[n]); v = rng.choice(VALS)
+            else:
+                k = rng.choice(keys); v = rng.choice(VALS)
+            if k not in used[n]: used[n].append(k)
+            if k in deleted[n]: deleted[n].remove(k)
+            ops.append({"op": "upsert", "n": n, "k": H(k), "v": H(v)})
         elif kind == "delete":
-            ops.append({"op": "delete", "n": n, "k": H(rng.choice(keys))})
+            k = rng.choice(used[n]) if used[n] and rng.random() < 0.75 else rng.choice(keys)
+            if k in used[n] and k not in deleted[n]: deleted[n].append(k)
+            ops.append({"op": "delete", "n": n, "k": H(k)})
         elif kind == "compact":
             ops.append({"op": "compact", "n": n, "th": rng.choice([1, 1, 2, 3])})
         elif kind == "leave":
